@@ -172,7 +172,7 @@ pub fn requests(set: &[RouteSpec], quick: bool) -> Vec<(String, String)> {
         if p.is_empty() { variants = vec!["/".into(), "//".into(), "///".into()]; }
         let deep = p.len() > max_depth;
         for v in variants {
-            for m in ["GET", "POST", "HEAD"] { out.push((m.to_string(), v.clone())) }
+            for m in ["GET", "POST", "HEAD"] { if quick && deep && m != "GET" { continue } out.push((m.to_string(), v.clone())) }
             if !deep && !(quick && p.len() == max_depth && max_depth >= 2) {
                 for m in ["PUT", "DELETE", "OPTIONS", "PATCH"] { out.push((m.to_string(), v.clone())) }
             }
